@@ -132,3 +132,20 @@ Example conv_hyps_satisfiable :
   in_range ILong (2^40) = true /\ n2_pair IInt ILong = false /\ conv IInt ILong (2^40) = Abort
   /\ conv IUInt ILong 4294967295 = Ok 4294967295 /\ abi_ok abi_lp32 = true.
 Proof. vm_compute. repeat split. Qed.
+
+(* callback parameters and results (C12) *)
+Lemma cb_int_param a k s v : abi_ok a = true -> sbx_equiv a k = Some s -> in_range s v = true ->
+  to_app a k v = Some (conv_spec k v).
+Proof.
+  intros Ha He Hr. destruct (to_app a k v) as [r|] eqn:E.
+  - f_equal. exact (to_app_correct a k s v r Ha He Hr E).
+  - unfold to_app in E. rewrite He in E. discriminate.
+Qed.
+Lemma cb_int_result a k v : abi_ok a = true -> in_range k v = true ->
+  (exists s, sbx_equiv a k = Some s /\ to_sbx a k v = Some (conv_spec s v)) \/ sbx_equiv a k = None.
+Proof.
+  intros Ha Hr. destruct (sbx_equiv a k) as [s|] eqn:He; [left|right; reflexivity].
+  exists s. split; [reflexivity|]. destruct (to_sbx a k v) as [r|] eqn:E.
+  - destruct (to_sbx_correct a k v r Ha Hr E) as (s' & He' & ->). congruence.
+  - unfold to_sbx in E. rewrite He in E. discriminate.
+Qed.
